@@ -16,7 +16,13 @@
      Z <limit> <size>          limitSize
      O <entries> <last>        content/oci listTags
      X <limit> <found> <size> <items> <at> <cbfail>   referrers tag schema
-     P <U|S|N> <status> <nameunknown> <ctype>   pingReferrers: answer (1|0|E), state, requests *)
+     P <U|S|N> <status> <nameunknown> <ctype>   pingReferrers: answer (1|0|E), state, requests
+     U <T|K|R> <n> <scheme> <host> <base path> <base raw query> <Link header>   the next request on strings
+     U0 <T|K|R> <n> <at> <last>     raw query of the first request
+     QS <raw> {<key> <value>}       setQueryParams
+     QE <s>                         url.QueryEscape, url.QueryUnescape
+     QL <raw>                       the registry's lenient reading of a raw query
+     RR <scheme> <host> <base path> <base raw query> <ref>   net/url: base.Parse(ref) *)
 let z_of_int (i : int) : z =
   if i = 0 then Z0 else if i > 0 then Zpos (pos_of_int i) else Zneg (pos_of_int (- i))
 
@@ -168,5 +174,33 @@ let () =
       Printf.printf "%s %s %s %d\n" id (match r with Some true -> "1" | Some false -> "0" | None -> "E")
         (match st' with RUnknown -> "U" | RSupported -> "S" | RUnsupported -> "N")
         (match state with RUnknown -> 1 | _ -> 0)
+    | [id; "U"; kd; n; sch; host; bpath; bq; hdr] ->
+      let cfg = { c_kind = kind_of_tok kd; c_n = z_of_int (int_of_string n); c_limit = Z0; c_at = [] } in
+      let base = { s_scheme = str_of_hex sch; s_host = str_of_hex host; s_path = str_of_hex bpath; s_query = str_of_hex bq } in
+      (match next_request cfg base (str_of_hex hdr) with
+       | NNone -> Printf.printf "%s NONE\n" id
+       | NErrLink -> Printf.printf "%s ERRLINK\n" id
+       | NErrResolve -> Printf.printf "%s ERRRESOLVE\n" id
+       | NUnjudged -> Printf.printf "%s UNJUDGED\n" id
+       | NNext (p, q) -> Printf.printf "%s NEXT %s %s\n" id (hex_of_str p) (hex_of_str q))
+    | [id; "U0"; kd; n; at; last] ->
+      let cfg = { c_kind = kind_of_tok kd; c_n = z_of_int (int_of_string n); c_limit = Z0; c_at = str_of_hex at } in
+      let q0 = (match cfg.c_kind with KReferrers -> referrers_q0 (str_of_hex at) | _ -> []) in
+      Printf.printf "%s %s\n" id (hex_of_str (first_query cfg q0 (str_of_hex last)))
+    | id :: "QS" :: raw :: kvs ->
+      let rec pairs = function k :: v :: r -> (str_of_hex k, str_of_hex v) :: pairs r | _ -> [] in
+      Printf.printf "%s %s\n" id (hex_of_str (set_query_params (str_of_hex raw) (pairs kvs)))
+    | [id; "QE"; s] ->
+      Printf.printf "%s %s %s\n" id (hex_of_str (query_escape (str_of_hex s)))
+        (match query_unescape (str_of_hex s) with Some t -> hex_of_str t | None -> "!")
+    | [id; "QL"; raw] ->
+      let kvs = List.stable_sort (fun (k1, _) (k2, _) -> compare (hex_of_str k1) (hex_of_str k2)) (parse_query_lenient (str_of_hex raw)) in
+      Printf.printf "%s %s\n" id (match kvs with [] -> "_" | _ -> String.concat "&" (List.map (fun (k, v) -> hex_of_str k ^ "=" ^ hex_of_str v) kvs))
+    | [id; "RR"; sch; host; bpath; bq; r] ->
+      let base = { s_scheme = str_of_hex sch; s_host = str_of_hex host; s_path = str_of_hex bpath; s_query = str_of_hex bq } in
+      (match resolve_ref base (str_of_hex r) with
+       | RErr -> Printf.printf "%s ERR\n" id
+       | RUnjudged -> Printf.printf "%s UNJUDGED\n" id
+       | ROk u -> Printf.printf "%s OK %s %s %s %s\n" id (hex_of_str u.s_scheme) (hex_of_str u.s_host) (hex_of_str u.s_path) (hex_of_str u.s_query))
     | [] -> ()
     | _ -> Printf.printf "BADLINE %s\n" l)
